@@ -57,6 +57,18 @@ def spd(rnd, d):
     return 0.5 * (m + m.T)
 
 
+def _enc(rnd, arr, whole=False):
+    """the same numbers in another container / dtype: integer arrays and nested lists when all values are whole numbers"""
+    if arr is None or not whole or not np.all(np.isfinite(arr)) or not np.all(arr == np.round(arr)):
+        return None if arr is None else arr.copy()
+    k = rnd.choice(["f64", "int64", "int32", "list"])
+    if k == "f64":
+        return arr.copy()
+    if k == "list":
+        return np.array([[int(v)] for v in arr.ravel()]) if arr.ndim == 2 and arr.shape[1] == 1 else np.array(arr.astype(int).tolist())
+    return arr.astype(np.int64 if k == "int64" else np.int32)
+
+
 def _normalize_history(rnd, obj):
     """'after normalize()' holds after any history with at least one call: call it 1-3 times"""
     for _ in range(rnd.choice([1, 1, 2, 3])):
@@ -85,9 +97,18 @@ def _leaf(rnd, d, normalized=False, allow=("normaldiag", "normalscalar", "normal
         obj.update_bounds(None if lb is None else lb.copy(), None if ub is None else ub.copy())
         return Node(obj, f"himmelblau {fhex(T)} {box_str(lb, ub)}", {"kind": k, "T": T}, 2, k, lb=lb, ub=ub, generable=False)
     mu = np.array([[rnd.uniform(-1, 1)] for _ in range(d)])
+    whole = rnd.random() < 0.2     # a model written down with whole numbers (integer arrays, lists) is the same model
+    if whole:
+        mu = np.array([[float(rnd.choice([-2, -1, 0, 1, 2]))] for _ in range(d)])
+        if lb is not None:
+            lb = np.where(np.isfinite(lb), np.round(lb), lb)
+        if ub is not None:
+            ub = np.where(np.isfinite(ub), np.round(ub), ub)
     if k == "laplace":
         b = np.array([[rnd.choice([0.5, 1.0, 2.0, rnd.uniform(0.3, 3)])] for _ in range(d)])
-        obj = D.Laplace(mu.copy(), b.copy(), lower_bounds=None if lb is None else lb.copy(), upper_bounds=None if ub is None else ub.copy())
+        if whole:
+            b = np.array([[float(rnd.choice([1, 2, 3]))] for _ in range(d)])
+        obj = D.Laplace(_enc(rnd, mu, whole), _enc(rnd, b, whole), lower_bounds=_enc(rnd, lb, whole), upper_bounds=_enc(rnd, ub, whole))
         if normalized:
             _normalize_history(rnd, obj)
         return Node(obj, f"laplace {vhex(mu)} {vhex(b)} {int(normalized)} {box_str(lb, ub)}", {"kind": k, "mu": mu.ravel().tolist(), "b": b.ravel().tolist()},
@@ -99,8 +120,10 @@ def _leaf(rnd, d, normalized=False, allow=("normaldiag", "normalscalar", "normal
             cov_arg = float(c)
         else:
             var = np.array([[rnd.choice([0.5, 1.0, 2.0, rnd.uniform(0.2, 4)])] for _ in range(d)])
-            cov_arg = var.copy()
-        obj = D.Normal(mu.copy(), cov_arg, lower_bounds=None if lb is None else lb.copy(), upper_bounds=None if ub is None else ub.copy())
+            if whole:
+                var = np.array([[float(rnd.choice([1, 2, 3, 4]))] for _ in range(d)])
+            cov_arg = _enc(rnd, var, whole)
+        obj = D.Normal(_enc(rnd, mu, whole), cov_arg, lower_bounds=_enc(rnd, lb, whole), upper_bounds=_enc(rnd, ub, whole))
         if normalized:
             _normalize_history(rnd, obj)
         return Node(obj, f"normaldiag {vhex(mu)} {vhex(var)} {int(normalized)} {box_str(lb, ub)}",
